@@ -16,6 +16,7 @@ FTF = (0.026, 0.028)
 TYPES = {
     'a2': dict(n=2, ftf=FTF),
     'a3': dict(n=3, P=0.0052, D=0.0042, Dw=0.0008, ftf=FTF),
+    'b3': dict(n=3, P=0.0050, D=0.0040, Dw=0.0008, ftf=FTF),      # same ring count as a3, smaller pitch
     'a4': dict(n=4, P=0.0037, D=0.0030, Dw=0.0005, ftf=FTF),
     'ur': dict(n=2, ftf=FTF, lowfid='simple'),
     'u6': dict(n=2, ftf=FTF, lowfid='6node'),
@@ -33,6 +34,8 @@ LAYOUTS = {
     'six-hole': [('a2', 1, 1), ('a3', 2, 1), ('a2', 2, 2), ('a3', 2, 4), ('a2', 2, 5), ('a3', 2, 6)],
     'ring-no-centre': [('a2', 2, 1), ('a3', 2, 2), ('a2', 2, 3)],
     # finest mesh in the centre, two other mesh kinds alternating around it
+    # equal cell counts, different pitches on a shared side (square but non-identity duct<->gap maps)
+    'three-a3-b3-a2': [('a3', 1, 1), ('b3', 2, 1), ('a2', 2, 2)],
     'seven-alt': [('a4', 1, 1), ('a3', 2, 1), ('a2', 2, 2), ('a3', 2, 3), ('a2', 2, 4), ('a3', 2, 5), ('a2', 2, 6)],
     'five-alt': [('a4', 1, 1), ('a3', 2, 1), ('a2', 2, 2), ('a3', 2, 4), ('a2', 2, 5)],
     'nineteen-a2': [('a2', 1, 1)] + [('a2', 2, p) for p in range(1, 7)] + [('a2', 3, p) for p in range(1, 13)],
